@@ -296,4 +296,5 @@ def run(chk):
     kinds = dict(rule_lock_creation(chk, set(lockdecs.values()) or {"_lock"}))
     rule_noreentry(chk, locked, kinds)
     rule_pairing(chk)
+    common.rule_instance_state(chk, "C16", [("_output", "MemoryLogger")])
     rule_file(chk)
